@@ -350,11 +350,12 @@ func (m *FloodSub) handleValidMessage(
 ) {
 	channelID := pktInner.GetChannel()
 	msgId := pkt.ComputeMessageID()
-	if _, ok := m.seenMessages.Get(msgId); ok {
+	simhook.Yield("floodsub/seen-check", channelID)
+	// Check and mark in one step: two streams may deliver the same message at
+	// the same time. Add fails if the (unexpired) message id is already present.
+	if err := m.seenMessages.Add(msgId, pkt, 0); err != nil {
 		return
 	}
-	simhook.Yield("floodsub/seen-check", channelID)
-	m.seenMessages.Set(msgId, pkt, 0)
 
 	pid, err := peer.IDB58Decode(pkt.GetFromPeerId())
 	if err != nil {
